@@ -35,7 +35,7 @@ def main():
             if i < 0:
                 extra = True
                 continue
-            out[i - 1] = rec.vid(v)
+            out[i - 1] = rec.vid(v, i)
         if extra:
             out[nk - 1] = -7
         return out
@@ -147,7 +147,7 @@ def main():
                 i1 = f.info()
                 res['kind'] = 'hit' if i1.hit > i0.hit else 'load' if i1.load > i0.load else 'miss' if i1.miss > i0.miss else 'none'
                 res['evals'] = len(EVALS)
-                res['ret'] = rec.vid(r)
+                res['ret'] = rec.vid(r, cmd['k'])
                 f.dump()
                 if 'mtime' in cmd:
                     touch(cmd['mtime'])
